@@ -6,7 +6,7 @@ Import ListNotations.
 Open Scope string_scope.
 
 (* Knuth's generator (rng.c): used only to obfuscate mailto links; restarted with its default
-   seed on first use in every export (fix fb326b1), so its content never carries over *)
+   seed on first use in every export (fix a97f6b2), so its content never carries over *)
 Definition rng_state := ["ran_x"; "ran_arr_buf"; "ran_arr_ptr"; "ran_arr_dummy"; "ran_arr_started"].
 (* the shared token pool (token.c): protocol proved in C18; absent with DISABLE_OBJECT_POOL *)
 Definition pool_state := ["token:token_pool"; "token:token_pool_count"].
